@@ -272,7 +272,8 @@ func (i *interpreter) parseSubinclude(path string) ([]*Statement, error) {
 func (i *interpreter) optimiseExpressions(stmts []*Statement) {
 	WalkAST(stmts, func(expr *Expression) bool {
 		if constant := i.scope.Constant(expr); constant != nil {
-			expr.optimised = &optimisedExpression{Constant: constant} // Extract constant expression
+			_, isList := constant.(pyList)
+			expr.optimised = &optimisedExpression{Constant: constant, ListLiteral: isList} // Extract constant expression
 			expr.Val = nil
 			return false
 		} else if expr.Val != nil && expr.Val.Ident != nil && expr.Val.Call == nil && expr.Op == nil && expr.If == nil && len(expr.Val.Slices) == 0 {
@@ -605,10 +606,10 @@ func (s *scope) interpretExpression(expr *Expression) pyObject {
 	// Check the optimised sites first
 	if expr.optimised != nil {
 		if expr.optimised.Constant != nil {
-			if l, ok := expr.optimised.Constant.(pyList); ok {
+			if expr.optimised.ListLiteral {
 				// Lists can be modified by index assignment, so every evaluation of a list literal must
 				// yield a list of its own, as it would if the literal had not been precalculated.
-				return cloneList(l)
+				return cloneList(expr.optimised.Constant.(pyList))
 			}
 			return expr.optimised.Constant
 		} else if expr.optimised.Local != "" {
